@@ -16,7 +16,7 @@ from gen import gen_schema, setup_statements, QueryGen
 from sqlcase import RL, DISK_LAYOUTS, norm_rows, rows_of
 
 TYPES = ("INT", "BIGINT", "SMALLINT", "BOOLEAN", "VARCHAR", "DOUBLE", "DECIMAL(10,2)", "DATE")
-FEATURES = dict(full_join=True, not_in_sub=False, like=True, offset_no_limit=True, case_no_else=True, null_lit=False,
+FEATURES = dict(full_join=True, not_in_sub=False, like=True, offset_no_limit=True, case_no_else=True, null_lit=True,
                 derived_limit=True)
 VARIANT = {"INT": "Int32", "BIGINT": "Int64", "SMALLINT": "Int16", "BOOLEAN": "Bool", "VARCHAR": "String", "DOUBLE": "Float64",
            "DECIMAL(10,2)": "Decimal", "DATE": "Date"}
